@@ -150,8 +150,12 @@ def run(ctx):
         ctx.flush()
     for i in range(n_random):
         n = gen.log_int(rng, 2, maxlen_r)
-        kind = rng.choice(['excursions', 'noise', 'plateau', 'dyadic'])
-        if kind == 'excursions':
+        kind = rng.choice(['excursions', 'noise', 'plateau', 'dyadic', 'tiny-scale', 'near-tie'])
+        if kind == 'tiny-scale':
+            v = (gen.dyadic_record(rng, n) * 2.0 ** -rng.choice([30, 40, 60])).tolist()
+        elif kind == 'near-tie':
+            v = (gen.int_record(rng, n) + np.array([rng.choice([0, 1, -1, 2]) * 2.0 ** -rng.choice([28, 34, 40]) for _ in range(n)])).tolist()
+        elif kind == 'excursions':
             # excursions with >= 3 distinct levels each, separated by sign changes or exact zeros
             v = []
             sgn = rng.choice([-1, 1])
